@@ -38,12 +38,11 @@ def new (codeLength : Nat) : TM Labels := do
 
 def has (l : Labels) (pc : Nat) : Bool := l.set.testBit pc
 
-/-- `get_or_add_unchecked`: a fresh label gets id `max_id`, then `self.max_id += 1` in `u16` -/
+/-- `get_or_add_unchecked`: a fresh label gets id `max_id as u16`, then `self.max_id += 1`; since 4853513 the counter
+is a `u32` and there are at most 65536 offsets: no overflow (former site 2) -/
 def addUnchecked (l : Labels) (pc : Nat) : TM Labels :=
   if l.has pc then pure l
-  else do
-    check Sites.labelsMaxId (l.count + 1 ≤ 65535)
-    pure { l with set := l.set ||| (1 <<< pc), count := l.count + 1 }
+  else pure { l with set := l.set ||| (1 <<< pc), count := l.count + 1 }
 
 /-- `create` / `get_or_create`: `pc >= code_length` is an error -/
 def getOrCreate (l : Labels) (pc : Nat) : TM Labels := do
@@ -55,11 +54,12 @@ def getOrCreateExcl (l : Labels) (pc : Nat) : TM Labels := do
   guard (pc ≤ l.codeLength)
   addUnchecked l pc
 
-/-- `get_or_create_range`: `start`, then `start_pc + length` in `u16`, then the exclusive check -/
+/-- `get_or_create_range`: `start`, then `start_pc.checked_add(length)` (e3534dd: an error, former site 1), then the
+exclusive check -/
 def getOrCreateRange (l : Labels) (start length : Nat) : TM Labels := do
   let l ← getOrCreate l start
-  let e ← addU16 Sites.labelsRange start length
-  getOrCreateExcl l e
+  guard (start + length ≤ 65535)
+  getOrCreateExcl l (start + length)
 
 /-- `try_get` -/
 def tryGet (l : Labels) (pc : Nat) : TM Unit := guard (l.has pc)
@@ -438,8 +438,10 @@ def readFrames : Nat → Bool → Nat → Labels → Bytes → TM (Labels × Byt
   | 0, _, _, l, s => pure (l, s)
   | n + 1, first, offset, l, s => do
     let (delta, l, s) ← readFrame l s
-    let step ← addU16 Sites.frameOffset delta (if first then 0 else 1)
-    let offset ← addU16 Sites.frameOffset offset step
+    -- 6b80d4b: `offset.checked_add(offset_delta).and_then(|o| o.checked_add(if i == 0 { 0 } else { 1 }))` (former site 3)
+    guard (offset + delta ≤ 65535)
+    guard (offset + delta + (if first then 0 else 1) ≤ 65535)
+    let offset := offset + delta + (if first then 0 else 1)
     let l ← l.getOrCreate offset
     readFrames n false offset l s
 
@@ -529,7 +531,7 @@ def readTypeAnno (l : Labels) (s : Bytes) : TM (Labels × Bytes) := do
   let (_, s) ← readTypePath s
   let (d, s) ← u16 s
   guard (getUtf8 d).isSome
-  let (_, s) ← Anno.readPairs stackBudget s
+  let (_, s) ← Anno.readPairs s
   pure (l, s)
 
 structure AttrState where
@@ -568,7 +570,7 @@ def readCodeAttr (st : AttrState) (s : Bytes) : TM (AttrState × Bytes) := do
     let (l, s) ← loopL readTypeAnno n st.labels s
     pure ({ st with labels := l }, s)
   else do
-    let (_, s) ← takeVecBig length s                -- site 6: `read_u8_vec(length as usize)`, length is a u32
+    let (_, s) ← takeVec length s                   -- former site 6: `read_u8_vec(length as usize)`, length is a u32
     pure (st, s)
 
 def readCodeAttrs : Nat → AttrState → Bytes → TM (AttrState × Bytes)
